@@ -13,7 +13,7 @@ import random
 import sys
 import threading
 
-from vlib.memrun import J, canon_result, clear_all_lru, outcome_of, val5
+from vlib.memrun import HOUSEKEEPING, J, canon_result, clear_all_lru, outcome_of, reset_caches, val5
 from vlib.obs import exc_name, obs
 
 DIGITS = 700        # main() lowers the interpreter's int <-> str digit limit to its minimum (640), so 700 digits are "too many"
@@ -321,11 +321,11 @@ def model_schedules(yarl, be, root, src, outdir):
         progs = [[model_op(yarl, op, tagq) for op in p] for p in beh["progs"]]
         events = []
         clear_all_lru(yarl)
-        yarl.cache_configure()
+        reset_caches(yarl)
         for t in range(len(progs)):
             run_prog(yarl, [op for op in progs[t] if op[0] not in ("clear", "configure")], t, "seq", events)
         clear_all_lru(yarl)
-        yarl.cache_configure()
+        reset_caches(yarl)
         per = [[] for _ in progs]
         # each model step of thread t = "run t to its next call/return boundary"; repeat each a few times so that the real
         # thread (which has more boundaries than the model has steps) makes comparable progress
@@ -345,7 +345,7 @@ def model_schedules(yarl, be, root, src, outdir):
     if allev:
         with open(f"{outdir}/thr-model-{written}.json", "w") as f:
             json.dump(allev, f, separators=(",", ":"))
-    yarl.cache_configure()
+    reset_caches(yarl)
     print(json.dumps({"behaviours": bi + 1}))
 
 
@@ -361,7 +361,7 @@ def main():
         import yarl
         be = "py" if os.environ.get("YARL_NO_EXTENSIONS") else "c"
         systematic_pairs(yarl, be, os.path.dirname(yarl.__file__), seed, n, outdir, int(os.environ.get("VERIF_SYS_STRIDE", "1")))
-        yarl.cache_configure()
+        reset_caches(yarl)
         return
     import yarl
     be = "py" if os.environ.get("YARL_NO_EXTENSIONS") else "c"
@@ -390,11 +390,11 @@ def main():
         events = []
         # phase 0: sequential reference (fresh caches), run twice in different thread order
         clear_all_lru(yarl)
-        yarl.cache_configure()
+        reset_caches(yarl)
         for t in range(nthreads):
             run_prog(yarl, [op for op in progs[t] if op[0] not in ("clear", "configure")], t, "seq", events)
         clear_all_lru(yarl)
-        yarl.cache_configure()
+        reset_caches(yarl)
         if mode == "stress":
             # fill every module-level memo beyond any plausible capacity first, so that the concurrent phase runs the EVICTION paths
             for i in range(700):
@@ -425,7 +425,7 @@ def main():
             probe = Sched([0] * 100000, root)
             probe.run([lambda t=t: run_prog(yarl, progs[t], t, "sched-probe", []) for t in range(nthreads)])
             clear_all_lru(yarl)
-            yarl.cache_configure()
+            reset_caches(yarl)
             total = max(2, probe.yields)
             # ... and place the pre-emptions uniformly over it
             k = rnd.choice((1, 1, 2, 2, 3))
@@ -440,7 +440,10 @@ def main():
             for p in per:
                 events += p
             events.append({"kind": "schedule", "facts": [], "yields": s.yields, "preemptions": k})
-        yarl.cache_configure()
+        reset_caches(yarl)
+        if HOUSEKEEPING:
+            events.append({"kind": "housekeeping", "facts": [], "crash": "cache_configure():" + HOUSEKEEPING[0]})
+            del HOUSEKEEPING[:]
         for i, ev in enumerate(events):
             ev["id"] = f"{be}.{mode}{seed}.{rd}.{i}"
         allev += events
